@@ -11,7 +11,15 @@ the opcodes with Compile (a mismatch that does not change a truth value is *drif
 the real Switch::actions on the parser-produced cases in every enumerated environment.
 VIOLATION only if the real code disagrees with the documented meaning (DESIGN 3.3).
 A sample (switch and fork) runs end-to-end through the stepper and is judged by the monitor
-P_C10 (trace validation by TLC)."""
+P_C10 (trace validation by TLC); so do
+  * the key-timing families tlongA/B: every threshold at the TLC-enumerated ages (MC_Switch mode "ages": the
+    documented resolution boundary, the same 65536 and 131072 ticks later, the saturation point 65535) reached
+    by long silent gaps -- ages saturate, they do not wrap;
+  * the composite action terms of spec/ActionTerms.tla (MC_ActionTerms.tla enumerates every fork / switch whose
+    branches are keys, v1 chord placeholders, multi / tap-hold / tap-dance / fork / switch over those): the
+    parser's final action tree after its post-parse passes (resolution of the chord placeholders rebuilds
+    every containing action) must equal Final(term), and the key held through a quiet window must press
+    HeldOut(term, state) in each of the four trigger environments (P_C10 kind "term")."""
 import threading
 from props.common import *
 
@@ -608,7 +616,6 @@ def run(tier, seed):
     # ---- 1. TLC: enumerate programs, evaluate Compile / Run / Denote --------------------------------
     given = gen_given(rng, tier)
     genvs = [rand_env(rng) for _ in range(6 if quick else 10)]
-    W = max(6, NCPU)
     tfam = timing_family()
     thr_list = sorted(set(t for _, _, _, cases in tfam for (_, _, t, _) in cases))
     ages_job = lambda: tlc_job(wd, "ages", "ages", 1, 600, given=thr_list, heap="1g")
